@@ -492,7 +492,7 @@ func runC09(c *mon.Ctx) {
 	for i := 0; i < 32; i++ {
 		c.Require(fmt.Sprintf("getbest:subset-%02d", i))
 	}
-	c.Require("getbest:macintosh-chosen")
+	c.Require("getbest:macintosh-chosen", "getbest:best-candidate-maps-one-code")
 }
 
 // c09fmt4 is one case of the library-encoder format 4 strata.
@@ -1480,8 +1480,26 @@ func c09getbest(k *mon.Case) {
 	// glyph 50+i (a Macintosh subtable holds it at its Mac Roman code 0x8E);
 	// noise keys use 200+
 	const probe2, probe2mac = 0xE9, 0x8E
+	// a third of the candidate subtables map the probe and nothing else (an
+	// icon font with one glyph): a small subtable is as good as a large one
+	single := map[cmap.Key]bool{}
 	mk := func(marker int, key cmap.Key) []byte {
 		m2 := marker - 50
+		if marker < 200 && r.IntN(3) == 0 {
+			single[key] = true
+			switch {
+			case key.PlatformID == 1 && r.IntN(2) == 0:
+				var g [256]byte
+				g[probe] = byte(marker)
+				return cmapref.EncodeFormat0(key.Language, &g)
+			case key.PlatformID == 1:
+				return cmapref.EncodeFormat6(key.Language, probe, []uint16{uint16(marker)})
+			case (key.EncodingID == 10 || key.EncodingID == 4) && r.IntN(2) == 0:
+				return cmap.Format12{probe: glyph.ID(marker)}.Encode(0)
+			default:
+				return cmap.Format4{probe: glyph.ID(marker)}.Encode(key.Language)
+			}
+		}
 		switch {
 		case key.PlatformID == 1 && r.IntN(2) == 0:
 			var g [256]byte
@@ -1562,7 +1580,9 @@ func c09getbest(k *mon.Case) {
 		k.Fail("mismatch", "getbest:preference", "subset %05b (+%d noise keys): GetBest chose %s (glyph %d), expected %v", subset, nn, chosen, got, c09candidates[want])
 	}
 	// the chosen subtable answers in Unicode, whatever its own code space is
-	if got2 := int(sub.Lookup(probe2)); got == 100+want && got2 != 50+want {
+	if single[c09candidates[want]] {
+		k.Class("getbest:best-candidate-maps-one-code")
+	} else if got2 := int(sub.Lookup(probe2)); got == 100+want && got2 != 50+want {
 		k.Fail("mismatch", "getbest:code-space", "subset %05b: the subtable chosen by GetBest (%v) maps U+00E9 to glyph %d, expected %d (Macintosh subtables hold it at code 0x8E)", subset, c09candidates[want], got2, 50+want)
 	}
 	if want == 4 {
